@@ -474,7 +474,7 @@ static const struct fault_menu fault_menus[C_NCALLS] = {
   [C_OPEN] = { 3, { ENOENT, EACCES, EMFILE } },
   [C_DUP2] = { 3, { EBADF, EMFILE, EINTR } },
   [C_DUP] = { 1, { EMFILE } },
-  [C_FCNTL] = { 1, { EBADF } },
+  [C_FCNTL] = { 2, { EBADF, EIO } }, /* EIO: not an answer Linux gives for the commands used here; kept as insurance against code that reads every failure as "closed" */
   [C_CHDIR] = { 2, { ENOENT, ENOTDIR } },
   [C_EXEC] = { 3, { ENOENT, EACCES, E2BIG } },
   [C_GETCWD] = { 3, { ENOENT, EACCES, ERANGE } }, /* ERANGE: "buffer too small", as with a longer directory: the caller is expected to retry */
